@@ -211,7 +211,8 @@ func genGb(r *kit.Rand) []string {
 // iso cases
 
 var modelledKinds = []string{"sample", "statecount", "wherecount", "evalcount", "alertgt", "alertmod", "sum", "count", "wherenested", "evalnested", "alertnested",
-	"stateduration", "changedetect", "derivative", "derivativenn", "windowc", "windowcfill", "alertthr", "alertthrsco"}
+	"stateduration", "changedetect", "derivative", "derivativenn", "windowc", "windowcfill", "alertthr", "alertthrsco",
+	"winsample", "winstatecount", "winwhere", "winchange", "winderiv", "winsum", "wincount"}
 var opaqueKinds []string
 
 func init() {
